@@ -4,6 +4,7 @@ import (
 	"fmt"
 	"go/token"
 	"go/types"
+	"sort"
 	"strings"
 
 	"golang.org/x/tools/go/ssa"
@@ -77,7 +78,9 @@ func (vc *VC) call(ins ssa.Instruction, c *ssa.CallCommon, v *ssa.Call) {
 			}
 		} else {
 			sig, _ = c.Value.Type().Underlying().(*types.Signature)
-			vc.val(c.Value)
+			if vc.dynamicDispatch(c, v, sig, args, pos) {
+				return
+			}
 		}
 	}
 	if isNoopCallee(calleePkg) {
@@ -712,6 +715,12 @@ func (vc *VC) loopEnv(li *LoopInfo, override map[*ssa.Phi]Term, heap Heap) *Spec
 	env := vc.entryEnv()
 	env.heap = heap
 	hb := vc.fn.Blocks[li.header]
+	// inside a loop a parameter name denotes the current value of the variable (it may have been reassigned)
+	for _, p := range vc.fn.Params {
+		if t, ok := vc.resolveLocal(p.Name(), hb, heap, override); ok {
+			env.vars[p.Name()] = t
+		}
+	}
 	base := env.resolve
 	env.resolve = func(name string) (Term, bool) {
 		if name == "_k" {
@@ -964,3 +973,111 @@ func sortStrings(s []string) {
 }
 
 // ---------- auto-ghosts (filled in ghosts.go) ----------
+
+// dynamicDispatch handles a call through a function value by case analysis over the repo functions of the same
+// signature whose address is taken somewhere (candidates must have contracts and modify nothing).
+func (vc *VC) dynamicDispatch(c *ssa.CallCommon, v *ssa.Call, sig *types.Signature, args []Term, pos token.Pos) bool {
+	if sig == nil {
+		return false
+	}
+	f := vc.val(c.Value)
+	var cands []*ssa.Function
+	for _, fn := range vc.eng.addrTakenFuncs() {
+		if types.Identical(fn.Signature, sig) {
+			cands = append(cands, fn)
+		}
+	}
+	if len(cands) == 0 || len(cands) > 6 {
+		return false
+	}
+	for _, fn := range cands {
+		sp := vc.eng.specFor(funcKey(fn))
+		if sp == nil || len(sp.Modifies) > 0 {
+			return false
+		}
+	}
+	rnames := resultNamesOf(sig, nil)
+	res := vc.bindResults(v, sig, rnames)
+	var alts []string
+	for _, fn := range cands {
+		sp := vc.eng.specFor(funcKey(fn))
+		sp.Bound = true
+		fc := vc.val(fn).S
+		alts = append(alts, fmt.Sprintf("(= %s %s)", f.S, fc))
+		env := &SpecEnv{vc: vc, pkg: vc.pkg, vars: map[string]Term{}, heap: vc.heap, old: vc.heap}
+		if fn.Pkg != nil {
+			env.pkg = fn.Pkg.Pkg
+		}
+		for i, p := range fn.Params {
+			if i < len(args) {
+				env.vars[p.Name()] = args[i]
+			}
+		}
+		for i, r := range sp.Requires {
+			t, err := env.evalBool(r.Expr)
+			if err != nil {
+				vc.fail("dynamic call %s requires#%d: %v", shortKey(funcKey(fn)), i+1, err)
+			}
+			vc.oblige(fmt.Sprintf("call[dyn:%s]/requires#%d", fn.Name(), i+1), "requires", fmt.Sprintf("(=> (= %s %s) %s)", f.S, fc, t), r.Text, pos)
+		}
+		frn := resultNamesOf(fn.Signature, sp)
+		for i, r := range res {
+			env.vars[frn[i]] = r
+			if len(res) == 1 {
+				env.vars["result"] = r
+			}
+		}
+		for i, en := range sp.Ensures {
+			t, err := env.evalBool(en.Expr)
+			if err != nil {
+				vc.fail("dynamic call %s ensures#%d: %v", shortKey(funcKey(fn)), i+1, err)
+			}
+			vc.assume(fmt.Sprintf("(=> (= %s %s) %s)", f.S, fc, t))
+		}
+	}
+	vc.trusted["dynamic call resolved by case analysis over address-taken functions of the same signature"] = true
+	_ = alts
+	return true
+}
+
+func (e *Engine) addrTakenFuncs() []*ssa.Function {
+	if e.addrTaken != nil {
+		return e.addrTaken
+	}
+	seen := map[*ssa.Function]bool{}
+	for _, fn := range e.Funcs {
+		for _, b := range fn.Blocks {
+			for _, ins := range b.Instrs {
+				var ops []*ssa.Value
+				for _, op := range ins.Operands(ops) {
+					if op == nil || *op == nil {
+						continue
+					}
+					f, ok := (*op).(*ssa.Function)
+					if !ok || f.Pkg == nil || !strings.HasPrefix(f.Pkg.Pkg.Path(), repoModule) || f.Signature.Recv() != nil || f.Parent() != nil {
+						continue
+					}
+					// the callee position of a static call does not take the address
+					if cc, ok := ins.(ssa.CallInstruction); ok && cc.Common().Value == f {
+						isArg := false
+						for _, a := range cc.Common().Args {
+							if a == f {
+								isArg = true
+							}
+						}
+						if !isArg {
+							continue
+						}
+					}
+					seen[f] = true
+				}
+			}
+		}
+	}
+	e.addrTaken = []*ssa.Function{}
+	for f := range seen {
+		e.addrTaken = append(e.addrTaken, f)
+	}
+	sort.Slice(e.addrTaken, func(i, j int) bool { return funcKey(e.addrTaken[i]) < funcKey(e.addrTaken[j]) })
+	return e.addrTaken
+}
